@@ -786,7 +786,8 @@ def info_key(prog: Program) -> RuleResult:
                     for a, b in hook.l_keys:
                         if len(site.s_keys) > 1 and a != site.s_keys[1]:
                             problems.append(f"counts lost segments of `{a}` instead of `{site.s_keys[1]}`")
-                        if b != "root_synteny":
+                        # the node's own synteny is a parameter of the recurrence (the child's is a loop variable)
+                        if b not in func_params(rec.fn) or b in (rec.root_species, rec.root_object):
                             problems.append(f"counts lost segments relative to `{b}` instead of the node's synteny")
                 if problems:
                     res.fail(construct, f"`{short(site.node, 80)}` " + "; ".join(problems), rec.mod, site.node)
@@ -1224,7 +1225,16 @@ def base_ext_share(prog: Program) -> RuleResult:
             if not (isinstance(first, ast.Name) and first.id == func_params(fn)[0]):
                 res.fail(construct, f"passes `{short(first)}` instead of its own input to `{engine}`", mod, call)
                 continue
-            allowed = kwarg(call, "allowed_species", eparams.index("allowed_species") if "allowed_species" in eparams else None)
+            # the species enumerator: the engine parameter annotated as a callable returning tree nodes
+            allowed = None
+            all_args = efn.args.posonlyargs + efn.args.args + efn.args.kwonlyargs  # type: ignore[attr-defined]
+            for idx_p, arg in enumerate(all_args):
+                ann = ast.unparse(arg.annotation) if arg.annotation is not None else ""
+                if ann.startswith("Callable[") and ann.rstrip("]").endswith("Iterable[TreeNode"):
+                    allowed = kwarg(call, arg.arg, idx_p)
+            if allowed is None:
+                lambdas = [a for a in list(call.args) + [k.value for k in call.keywords] if isinstance(a, ast.Lambda)]
+                allowed = lambdas[0] if len(lambdas) == 1 else None
             if not isinstance(allowed, ast.Lambda) or len(allowed.args.args) != 2:
                 raise AnalysisError(f"{modname}:{fname}: allowed_species is not a two-parameter lambda")
             p_tree, p_obj = (a.arg for a in allowed.args.args)
